@@ -6,7 +6,7 @@ const ALPHA: [u8; 4] = [b':', b',', b' ', b'a'];
 /// C14: the comment lists nothing (suppress everything) iff nothing follows the marker; otherwise the listed ids
 /// are the comma separated, trimmed words after the colon
 #[kani::proof]
-#[kani::unwind(8)]
+#[kani::unwind(24)]
 fn parse_suppression_set_suffix3() {
   let mut buf = *b"// ast-grep-ignore    ";
   let base = 18; // length of "// ast-grep-ignore"
